@@ -149,14 +149,30 @@ theorem good_mergeGo (mref : Nat) : ∀ (rs : List Nat) (h : Heap), Good h → G
     | none => exact good_mergeGo mref more h' s1
     | some err => exact s1
 
+theorem good_allocCont {h : Heap} (g : Good h) (isDoc : Bool) (id : Option QName) (nss : List Ns) (doc : Option Nat) :
+    Good (h.allocCont isDoc id nss doc).1 :=
+  ⟨heapNormal_allocCont g.normal isDoc id nss doc, heapExtra_allocCont g.extra isDoc id nss doc,
+    wfRecs_allocCont g.wf isDoc id nss doc, fun r => by
+      have : (h.allocCont isDoc id nss doc).1.recCell r = h.recCell r := by simp [recCell, allocCont, allocMgr]
+      rw [this]; exact g.noColl r⟩
+
+theorem good_scratchCopy {h : Heap} (g : Good h) (r0 : Nat) : Good (h.scratchCopy r0).1 := by
+  unfold scratchCopy
+  simp only []
+  have g0 := good_allocCont g false none [] none
+  have hcell : ∀ r, (h.allocCont false none [] none).1.recCell r = h.recCell r := fun r => by simp [recCell, allocCont, allocMgr]
+  generalize h.allocCont false none [] none = al at g0 hcell
+  obtain ⟨h0, sc⟩ := al
+  exact good_mkRecord_argsOf g0 sc _ _ (h.recCell r0).r (g.noColl r0) (g.extra r0)
+
 theorem good_mergeGroup {h : Heap} (g : Good h) (rs : List Nat) : Good (h.mergeGroup rs).1 := by
   unfold mergeGroup
   cases rs with
   | nil => exact g
   | cons r0 rest =>
     simp only []
-    have s1 := good_copyRecord g r0
-    generalize h.copyRecord r0 = res at s1
+    have s1 := good_scratchCopy g r0
+    generalize h.scratchCopy r0 = res at s1
     obtain ⟨h1, e⟩ := res
     cases e with
     | error err => exact s1
@@ -201,7 +217,7 @@ theorem c08_unifiedBundle_content (h : Heap) (c : Nat) (g : Good h)
       (∀ r, r < h1.recs.size → h'.recCell r = h1.recCell r) := by
   unfold unifiedBundle at hres
   have g1 := good_unifiedRecords g c
-  have hsz := (C13.frameB_unifiedRecords 0 0 h c (Nat.zero_le _)).rsize
+  have hsz := (C13.frameB_unifiedRecords 0 0 h c (Nat.zero_le _) (Nat.zero_le _)).rsize
   cases hur : h.unifiedRecords c with
   | mk h1 e =>
     rw [hur] at hres g1 hsz
